@@ -17,11 +17,12 @@ const N2: &str = "/verif/target/n2bin/debug/n2";
 
 pub fn jobs(prop: &str, tier: Tier) -> Vec<(String, u64)> {
     match prop {
-        "C09" => vec![("proc:msvc".into(), 4)],
+        "C09" => vec![("proc:msvc".into(), 4), (format!("proc:filter:{}", tier.pick(6, 7)), 16)],
         "C16" => vec![
             ("proc:fdleak".into(), 1),
             ("proc:dirs".into(), 1),
             ("proc:hide".into(), 1),
+            ("proc:bytes".into(), 4),
             ("proc:msvc".into(), 4),
             ("proc:argv".into(), 8),
             ("proc:volume".into(), 8),
@@ -31,6 +32,7 @@ pub fn jobs(prop: &str, tier: Tier) -> Vec<(String, u64)> {
         ],
         "C18" => vec![("proc:flags".into(), 4)],
         "C05" => vec![("proc:status".into(), 16)],
+        "C08" => vec![("proc:subdir".into(), 1)],
         "C02" | "C03" => vec![("proc:conform".into(), 8)],
         "C19" => vec![("proc:summary".into(), 1)],
         "C20" => vec![("proc:pty".into(), 16), ("proc:stall".into(), 4)],
@@ -459,9 +461,12 @@ fn fdleak_job(ctx: &mut Ctx, res: &mut ShardResult) {
         ctx.marker.set(j as u64, b"fdleak");
         fresh();
         res.evaluations += 1;
-        // `long` runs for 3 s; `gate` for 0.3 s; `probe` (after gate) lists its
-        // descriptors while `long` is still running.
-        let manifest = "rule long\n  command = sleep 3; touch long.done; touch $out\nrule gate\n  command = sleep 0.3; touch $out\nrule probe\n  command = for f in /proc/$$$$/fd/*; do readlink $$f; done > fds.out; if [ -e long.done ]; then echo late > late.out; fi; touch $out\nbuild l: long\nbuild g: gate\nbuild p: probe g\nbuild l2: long\n";
+        // `long` runs until `probe` has run (it waits for the file `release`,
+        // for at most 60 s); `gate` is short; `probe` (after gate) lists its
+        // descriptors while `long` is still running and then releases it.  No
+        // wall-clock assumption decides the verdict: if gate's completion is
+        // only noticed when `long` exits, probe finds long.done.
+        let manifest = "rule long\n  command = i=0; while [ ! -e release ] && [ $$i -lt 1200 ]; do sleep 0.05; i=$$((i+1)); done; touch long.done; touch $out\nrule gate\n  command = sleep 0.1; touch $out\nrule probe\n  command = for f in /proc/$$$$/fd/*; do readlink $$f; done > fds.out; if [ -e long.done ]; then echo late > late.out; fi; touch release; touch $out\nbuild l: long\nbuild g: gate\nbuild p: probe g\nbuild l2: long\n";
         std::fs::write("build.ninja", manifest).unwrap();
         let o = n2(&["-j", &j.to_string(), "l", "p"]);
         let replay = || json!({"job": job, "index": j});
@@ -487,7 +492,7 @@ fn fdleak_job(ctx: &mut Ctx, res: &mut ShardResult) {
             continue;
         }
         if std::path::Path::new("late.out").exists() {
-            res.violation("completion-delayed-by-unrelated-command", || "a 0.3 s command's completion was only noticed after an unrelated 3 s command exited (its pipe was held open elsewhere)".to_string(), replay);
+            res.violation("completion-delayed-by-unrelated-command", || "a short command's completion was only noticed after an unrelated long-running command exited (its pipe was held open elsewhere)".to_string(), replay);
             continue;
         }
         res.nontrivial += 1;
@@ -863,6 +868,138 @@ fn pty_job(ctx: &mut Ctx, res: &mut ShardResult) {
                     res.outcome(&format!("pty-ok-{}", cols));
                 }
             }
+        }
+    }
+}
+
+// --- every byte value (C16) ------------------------------------------------------------
+
+/// A command's output is bytes, not text: every byte value 1..=255 (and NUL
+/// in a second case), on stdout and on stderr, from a succeeding and from a
+/// failing command, must come out of n2 (non-tty) unchanged, once.
+fn bytes_job(ctx: &mut Ctx, res: &mut ShardResult) {
+    let job = ctx.job.clone();
+    let mut idx = 0u64;
+    for with_nul in [false, true] {
+        for stream in ["1", "2"] {
+            for fail in [false, true] {
+                idx += 1;
+                if let Some(c) = &ctx.replay {
+                    if c["index"].as_u64() != Some(idx) {
+                        continue;
+                    }
+                } else if idx % ctx.nshards != ctx.shard {
+                    continue;
+                }
+                ctx.marker.set(idx, b"bytes");
+                fresh();
+                res.evaluations += 1;
+                let mut payload: Vec<u8> = b"BYTES<".to_vec();
+                let mut esc = String::from("BYTES<");
+                for b in (if with_nul { 0u16 } else { 1u16 })..=255 {
+                    // (a newline inside the payload would be fine too, but keep
+                    // the block on one line so that it is one "last line")
+                    if b == 10 {
+                        continue;
+                    }
+                    payload.push(b as u8);
+                    esc.push_str(&format!("\\{:03o}", b));
+                }
+                payload.extend_from_slice(b">END");
+                esc.push_str(">END");
+                // the escapes are for printf(1); `%` must be doubled for it and `$` for ninja
+                let manifest = format!(
+                    "rule r\n  command = printf '{}\\n' >&{}; {}\n  description = BYTES\nbuild o: r\n",
+                    esc.replace('%', "%%"),
+                    stream,
+                    if fail { "exit 3" } else { "touch $out" }
+                );
+                std::fs::write("build.ninja", manifest).unwrap();
+                let o = n2(&["-j", "1"]);
+                let replay = || json!({"job": job, "index": idx});
+                if fail != (o.code != Some(0)) {
+                    res.violation("command-did-not-run-cleanly", || format!("exit {:?}", o.code), replay);
+                    continue;
+                }
+                let n = find_all(&o.stdout, &payload);
+                if n != 1 {
+                    res.violation(
+                        "output-bytes-altered",
+                        || format!("a command printed every byte value {}..=255 on fd {} ({}); the block appears {} times in n2's output (bytes that are not valid UTF-8, or NUL, were altered or dropped)", if with_nul { 0 } else { 1 }, stream, if fail { "then failed" } else { "and succeeded" }, n),
+                        replay,
+                    );
+                } else {
+                    res.nontrivial += 1;
+                    res.outcome("bytes-ok");
+                }
+            }
+        }
+    }
+}
+
+// --- edits confined to a subninja file (C08) --------------------------------------------
+
+/// A history on the real binary in which only a subninja'd file is edited: it
+/// gains a private `builddir` binding and a new step, then loses them again.
+/// The steps whose statements did not change must not re-run, and the log must
+/// stay where the top-level scope puts it.
+fn subdir_job(ctx: &mut Ctx, res: &mut ShardResult) {
+    let job = ctx.job.clone();
+    for (idx, top_builddir) in [false, true].iter().enumerate() {
+        let idx = idx as u64;
+        if let Some(c) = &ctx.replay {
+            if c["index"].as_u64() != Some(idx) {
+                continue;
+            }
+        }
+        ctx.marker.set(idx, b"subdir");
+        fresh();
+        res.evaluations += 1;
+        let top = format!(
+            "{}rule cp\n  command = cp $in $out && echo $out >> ran.log\nbuild a: cp src\nbuild b: cp a\nsubninja sub.ninja\n",
+            if *top_builddir { "builddir = top_out\n" } else { "" }
+        );
+        std::fs::write("build.ninja", &top).unwrap();
+        std::fs::write("src", "s").unwrap();
+        std::fs::write("src2", "s2").unwrap();
+        let sub_plain = "build c: cp src2\n";
+        let sub_edited = "builddir = obj\nbuild c: cp src2\nbuild $builddir/d: cp src2\n";
+        let replay = || json!({"job": job, "index": idx});
+        let ran = || -> Vec<String> {
+            let t = std::fs::read_to_string("ran.log").unwrap_or_default();
+            let _ = std::fs::remove_file("ran.log");
+            let mut v: Vec<String> = t.lines().map(|l| l.to_string()).collect();
+            v.sort();
+            v
+        };
+        let log_at = if *top_builddir { "top_out/.n2_db" } else { ".n2_db" };
+        let mut failed = false;
+        let steps: [(&str, &str, Vec<&str>); 5] = [
+            ("first build", sub_plain, vec!["a", "b", "c"]),
+            ("repeat", sub_plain, vec![]),
+            ("subninja file gains a private builddir and a step", sub_edited, vec!["obj/d"]),
+            ("repeat after the edit", sub_edited, vec![]),
+            ("subninja file edited back", sub_plain, vec![]),
+        ];
+        for (what, sub, expect) in steps.iter() {
+            std::fs::write("sub.ninja", sub).unwrap();
+            let o = n2(&["-j", "1"]);
+            let got = ran();
+            let exp: Vec<String> = expect.iter().map(|s| s.to_string()).collect();
+            let stray = ["obj/.n2_db", "third_party/.n2_db"].iter().any(|p| std::path::Path::new(p).exists());
+            if o.code != Some(0) || got != exp || !std::path::Path::new(log_at).exists() || stray {
+                res.violation(
+                    "unchanged-steps-rerun-after-subninja-edit",
+                    || format!("{} (top-level builddir: {}): ran {:?}, expected {:?}; exit {:?}; log at {}: {}; a second log appeared: {}\n{}", what, top_builddir, got, exp, o.code, log_at, std::path::Path::new(log_at).exists(), stray, String::from_utf8_lossy(&o.stdout)),
+                    replay,
+                );
+                failed = true;
+                break;
+            }
+        }
+        if !failed {
+            res.nontrivial += 1;
+            res.outcome("subninja-edit-ok");
         }
     }
 }
@@ -1257,6 +1394,8 @@ pub fn run(ctx: &mut Ctx) -> ShardResult {
         "conform" => conform_job(ctx, &mut res),
         "pty" => pty_job(ctx, &mut res),
         "stall" => stall_job(ctx, &mut res),
+        "subdir" => subdir_job(ctx, &mut res),
+        "bytes" => bytes_job(ctx, &mut res),
         "hide" => hide_job(ctx, &mut res),
         "fdleak" => fdleak_job(ctx, &mut res),
         "dirs" => dirs_job(ctx, &mut res),
